@@ -406,7 +406,7 @@ func (w *wWorld) tick(d time.Duration) {
 		now := time.Now()
 		for _, ss := range w.sess {
 			if !ss.isClosed() {
-				ss.s.lastTouched = now
+				wTouch(ss.s, now)
 			}
 		}
 	}
@@ -584,7 +584,7 @@ func (ss *wSess) sendRaw(raw []byte) {
 	if ss.isClosed() {
 		return
 	}
-	ss.s.lastTouched = time.Now()
+	wTouch(ss.s, time.Now())
 	if ss.grpc {
 		var msg ClientComMessage
 		if json.Unmarshal(raw, &msg) == nil {
@@ -901,4 +901,13 @@ func wTrimStack(b []byte) string {
 		s = s[:3000]
 	}
 	return s
+}
+
+// wTouch refreshes a long-polling session's time of last use the way SessionStore.Get does on every
+// poll: under the registry's lock (NewSession reads it there when it expires idle sessions).
+func wTouch(s *Session, now time.Time) {
+	st := globals.sessionStore
+	st.lock.Lock()
+	s.lastTouched = now
+	st.lock.Unlock()
 }
